@@ -9,7 +9,7 @@ func pureExternal(name string) bool {
 		return true // logging no-ops
 	}
 	switch name {
-	case "fmt.Errorf", "fmt.Sscanf", "log.New", "time.Now", "(time.Time).Format", "(time.Time).IsZero",
+	case "fmt.Errorf", "fmt.Sscanf", "bytes.Equal", "bytes.NewReader", "strings.NewReader", "encoding/xml.NewDecoder", "log.New", "time.Now", "(time.Time).Format", "(time.Time).IsZero",
 		"encoding/xml.Marshal", "encoding/xml.MarshalIndent",
 		"(encoding/xml.StartElement).End", "(encoding/xml.StartElement).Copy":
 		return true
